@@ -25,6 +25,11 @@ build() {
   rsync -a --exclude .git "$REPO"/ "$SCR/repo/" || { echo "HARNESS-TROUBLE: cannot copy $REPO" >&2; exit 2; }
   mkdir -p "$SCR/repo/verifsim"
   cp "$VERIF/instrument/verifsim.go.txt" "$SCR/repo/verifsim/verifsim.go"
+  # the clock seam: reads of the wall clock in the tree's non-test code go through the simulated clock (none at the
+  # pinned commit: then no file changes)
+  (cd "$VERIF/instrument" && go build -trimpath -o "$SCR/seams" ./seams) || { echo "HARNESS-TROUBLE: seam rewriter does not build" >&2; exit 2; }
+  MODPATH="$(cd "$SCR/repo" && go list -m)" || { echo "HARNESS-TROUBLE: cannot read the module path of $REPO" >&2; exit 2; }
+  "$SCR/seams" "$SCR/repo" "$MODPATH" || { echo "HARNESS-TROUBLE: clock seam rewriting failed" >&2; exit 2; }
   # the process-environment seam: every environment variable the tree's non-test code reads by name (none at the
   # pinned commit); the simulators set a seeded subset around a share of their cases
   VERIF_ENVNAMES="$( {
